@@ -55,7 +55,7 @@ let other x = match x with SA -> SB | SB -> SA
 let rec remove_nth k = function [] -> [] | x :: r -> if k = 0 then r else x :: remove_nth (k - 1) r
 
 let mark k s = String.concat k (String.split_on_char '@' s)
-let run_pair zlb_recv toks =
+let run_pair zlb_recv toks impl =
   match toks with
   | oa :: ob :: ai :: am :: ar :: az :: aw :: bi :: bm :: br :: bz :: bw :: ops ->
     let t5 a b c d e = ((((zi (ios a), zi (ios b)), zi (ios c)), zi (ios d)), zi (ios e)) in
@@ -64,16 +64,47 @@ let run_pair zlb_recv toks =
     let trA = ref [] and trB = ref [] in
     let tr x = match x with SA -> trA | SB -> trB in
     let out = Buffer.create 256 in
+    let itoks = Array.of_list (tokens impl) in
+    let opi = ref (-1) in
+    (* the implementation's free choices, read from its own token for this op: the ZLB deadline it armed (7th state
+       field) and — only when the packet's Nr is ahead of our Ns — whether it ignored that acknowledgement.  Both
+       are validated by the model (deadline <= now + zlbDelay inside recv; ignoring only for an Nr from the future). *)
+    let impl_zd () =
+      if !opi < Array.length itoks then
+        match String.split_on_char '/' itoks.(!opi) with
+        | [_; st] -> (match String.split_on_char ',' st with
+            | [_; _; _; _; _; _; z] when z <> "z" -> (try Some (zi (ios z)) with _ -> None)
+            | _ -> None)
+        | _ -> None
+      else None in
     let apply ?(kindc="") ?(drops=[]) x ev =
       let before = List.length (ep_of !s x).e_sent in
-      let (s', o) = step zlb_recv !s ev in
+      let render s' o =
+        let so = (match o with OTick _ -> show_tick_obs drops o | _ -> show_obs o) in
+        mark kindc so ^ "/" ^ show_state (ep_of s' x) in
+      let (s', o) =
+        let zd = impl_zd () in
+        match ev with
+        | Deliver _ | Inject _ ->
+          let mk rc = (match ev with
+              | Deliver (y, i, t, fj, _) -> Deliver (y, i, t, fj, rc)
+              | Inject (y, p, t, fj, _) -> Inject (y, p, t, fj, rc)
+              | e -> e) in
+          let r1 = step zlb_recv !s (mk { r_ig = false; r_zd = zd }) in
+          let want = if !opi < Array.length itoks then itoks.(!opi) else "" in
+          if render (fst r1) (snd r1) = want then r1
+          else begin
+            let r2 = step zlb_recv !s (mk { r_ig = true; r_zd = zd }) in
+            if render (fst r2) (snd r2) = want then r2 else r1
+          end
+        | _ -> step zlb_recv !s ev in
       s := s';
       let after = List.length (ep_of !s x).e_sent in
       let t = tr (other x) in
       t := !t @ List.init (after - before) (fun i -> before + i);
-      let so = (match o with OTick _ -> show_tick_obs drops o | _ -> show_obs o) in
-      Buffer.add_string out (mark kindc so ^ "/" ^ show_state (ep_of !s x) ^ " ") in
+      Buffer.add_string out (render !s o ^ " ") in
     List.iter (fun op ->
+        incr opi;
         let f = String.split_on_char ':' op in
         let kind = op.[0] and x = side_of op.[1] in
         match kind, List.tl f with
@@ -86,7 +117,7 @@ let run_pair zlb_recv toks =
             let idx = List.nth l k in
             if kind = 'd' then (tr x) := remove_nth k l;
             let p = List.nth (ep_of !s (other x)).e_sent idx in
-            apply ~kindc:(if p.k_body = None then "z" else "m") x (Deliver (x, nat_of_int idx, zi (ios t), fault_of fl))
+            apply ~kindc:(if p.k_body = None then "z" else "m") x (Deliver (x, nat_of_int idx, zi (ios t), fault_of fl, head_choice))
           end
         | 'x', [k] ->
           let l = !(tr x) in
@@ -95,7 +126,7 @@ let run_pair zlb_recv toks =
         | 'j', (b :: sid :: ns :: nr :: t :: fl) ->
           let p = { k_body = (if b = "z" then None else Some (zi (ios b))); k_sid = zi (ios sid);
                     k_ns = zi (ios ns); k_nr = zi (ios nr) } in
-          apply ~kindc:(if p.k_body = None then "z" else "m") x (Inject (x, p, zi (ios t), fault_of fl))
+          apply ~kindc:(if p.k_body = None then "z" else "m") x (Inject (x, p, zi (ios t), fault_of fl, head_choice))
         | 't', (t :: fl) -> let d = drops_of fl in apply ~drops:d x (Tick (x, zi (ios t), List.map nat_of_int d))
         | 'w', [w] -> apply x (SetWin (x, zi (ios w)))
         | _ -> Buffer.add_string out "badop ") ops;
@@ -107,23 +138,33 @@ let run_pair zlb_recv toks =
     Buffer.contents out
   | _ -> "badline"
 
-let run_disp zlb_recv toks =
+let run_disp zlb_recv toks impl =
   match toks with
   | rws :: ops ->
     let e = ref (new_endpoint Z0 Z0 Z0 Z0 (zi (ios rws)) Z0 Z0) in
     let out = Buffer.create 128 in
-    List.iter (fun op ->
-        let (e', o) = match String.split_on_char ':' op with
+    let itoks = Array.of_list (tokens impl) in
+    List.iteri (fun i op ->
+        let k = match String.split_on_char ':' op with "i" :: k :: _ -> k | _ -> "" in
+        let render (e', o) =
+          let c = e'.e_ch in
+          Printf.sprintf "%s/%d,%d,%d,%d" (mark k (show_obs o)) (iz c.c_ns) (iz c.c_nr) (iz c.c_cwnd) (iz c.c_ssth) in
+        let r = match String.split_on_char ':' op with
           | ["i"; kind; ns; nr] ->
             let p = { k_body = (if kind = "z" then None else Some (zi 1)); k_sid = Z0;
                       k_ns = zi (ios ns); k_nr = zi (ios nr) } in
-            ep_deliver false !e p Z0 None
+            (* an Nr ahead of our Ns (forged): processing it and ignoring it are both admissible *)
+            let r1 = ep_deliver false !e p Z0 None head_choice in
+            let want = if i < Array.length itoks then itoks.(i) else "" in
+            if render r1 = want then r1
+            else begin
+              let r2 = ep_deliver false !e p Z0 None { r_ig = true; r_zd = None } in
+              if render r2 = want then r2 else r1
+            end
           | ["s"; b; sid] -> ep_submit !e (zi (ios b)) (zi (ios sid)) Z0 None
           | _ -> (!e, ONone) in
-        e := e';
-        let c = !e.e_ch in
-        let k = match String.split_on_char ':' op with "i" :: k :: _ -> k | _ -> "" in
-        Buffer.add_string out (Printf.sprintf "%s/%d,%d,%d,%d " (mark k (show_obs o)) (iz c.c_ns) (iz c.c_nr) (iz c.c_cwnd) (iz c.c_ssth))) ops;
+        e := fst r;
+        Buffer.add_string out (render r ^ " ")) ops;
     Buffer.add_string out "|";
     Buffer.contents out
   | _ -> "badline"
@@ -144,7 +185,7 @@ let run_full toks =
           let ack = if nr = "a" then !n.n_ep.e_ch.c_ns else zi (ios nr) in
           let p = { k_body = (if ty = "zlb" then None else Some (zi 1)); k_sid = zi (ios sid);
                     k_ns = zi (ios ns); k_nr = ack } in
-          let m = { m_tid_ok = tid_ok; m_pkt = p; m_replies = []; m_removes = (ty = "stop") } in
+          let m = { m_rc = head_choice; m_tid_ok = tid_ok; m_pkt = p; m_replies = []; m_removes = (ty = "stop") } in
           let before = List.length !n.n_ep.e_sent in
           n := node_step !n (NMsg (m, Z0));
           let mid = List.length !n.n_ep.e_sent in
@@ -182,7 +223,7 @@ let run_runner toks impl =
       seen := List.length sent in
     let peer_ns = ref 1 and acked = ref 1 in
     let data ns nr = { k_body = Some (zi 1); k_sid = Z0; k_ns = zi ns; k_nr = zi nr } in
-    let msg p rep t = n := node_step !n (NMsg ({ m_tid_ok = true; m_pkt = p; m_replies = rep; m_removes = false }, zi t)); note t in
+    let msg p rep t = n := node_step !n (NMsg ({ m_rc = head_choice; m_tid_ok = true; m_pkt = p; m_replies = rep; m_removes = false }, zi t)); note t in
     msg (data 0 0) [(zi 1, Z0)] 0;
     let tick_t = ref 200 in
     let do_event (at, k) =
@@ -203,22 +244,39 @@ let run_runner toks impl =
          else begin
            let (e', o) = ep_tick !n.n_ep (zi !tick_t) [] in
            n := { !n with n_ep = e' }; note !tick_t;
-           (match o with OTick (ret, _, _) -> tick_t := iz (runner_next ret (zi !tick_t)) | _ -> tick_t := !tick_t + 500)
+           (match o with OTick (ret, _, _) -> tick_t := iz (runner_next (zi 500) ret (zi !tick_t)) | _ -> tick_t := !tick_t + 500)
          end)
     done;
-    let pred = List.filter (fun (_, _, _, t) -> t <= watch - 150) !log in
     let show (k, ns, nr, t) = Printf.sprintf "%s%d.%d@%d" k ns nr t in
     let parse tok = (* d0.1@251 *)
       try Scanf.sscanf tok "%c%d.%d@%d" (fun k ns nr t -> Some (String.make 1 k, ns, nr, t)) with _ -> None in
     let obs = match tokens impl with "runner" :: l -> List.filter_map parse l | _ -> [] in
-    (* writes predicted close to the end of the watch window may or may not have been observed *)
-    let rec admissible p o = match p, o with
+    let horizon = watch - 150 in
+    (* (1) sequenced messages (first transmissions and retransmissions): same sequence as predicted, each within
+           [-120, +400] ms; writes predicted close to the end of the watch window may or may not have been seen.
+       (2) acknowledgements: WHEN an acknowledgement is sent is the implementation's choice within its bound: for every
+           inbound message (arrival a, in-order Ns) the first write carrying Nr > Ns must come no earlier than its
+           arrival and no later than the /repo-HEAD-policy prediction + 400 ms.  How many ZLBs that takes is free. *)
+    let data l = List.filter (fun (k, _, _, _) -> k = "d") l in
+    let rec data_ok p o = match p, o with
       | [], [] -> true
-      | [], (_, _, _, t) :: r -> t > watch - 150 - 120 && admissible [] r
-      | (k, ns, nr, t) :: pr, (k', ns', nr', t') :: orr ->
-        k = k' && ns = ns' && nr = nr' && t' >= t - 120 && t' <= t + 400 && admissible pr orr
-      | _ :: _, [] -> false in
-    if obs <> [] && admissible pred obs then impl
+      | [], (_, _, _, t) :: r -> t > horizon - 120 && data_ok [] r
+      | (_, ns, _, t) :: pr, (_, ns', _, t') :: orr -> ns = ns' && t' >= t - 120 && t' <= t + 400 && data_ok pr orr
+      | (_, _, _, t) :: pr, [] -> t > horizon && data_ok pr [] in
+    let inbound = List.filter (fun (_, k) -> k = "scccn" || k = "hello" || k = "icrq") evs in
+    let first_ack l v a = List.fold_left (fun acc (_, _, nr, t) ->
+        match acc with Some _ -> acc | None -> if nr >= v && t >= a - 5 then Some t else None) None l in
+    let acks_ok =
+      let rec go i = function
+        | [] -> true
+        | (a, _) :: rest ->
+          let v = i + 2 in      (* the i-th inbound message has Ns = i+1: acknowledged by Nr >= i+2 *)
+          (match first_ack !log v a with
+           | Some tp when tp <= horizon ->
+             (match first_ack obs v a with Some t -> t <= tp + 400 | None -> false)
+           | _ -> true) && go (i + 1) rest in
+      go 0 inbound in
+    if obs <> [] && data_ok (List.filter (fun (_, _, _, t) -> t <= horizon) (data !log)) (data obs) && acks_ok then impl
     else "runner " ^ String.concat " " (List.map show !log) ^ " (predicted)"
   | _ -> "badline"
 
@@ -245,13 +303,13 @@ let run_estab linger toks =
         let (st', opens) = conn_step linger !st CSccrq in
         (match !st, !node with
          | CLive, Some n when not opens ->     (* a copy: handed to the existing channel, which sees a duplicate *)
-           node := Some (node_dispatch n { m_tid_ok = true; m_pkt = { k_body = Some (zi 1); k_sid = Z0; k_ns = zi ns; k_nr = Z0 };
+           node := Some (node_dispatch n { m_rc = head_choice; m_tid_ok = true; m_pkt = { k_body = Some (zi 1); k_sid = Z0; k_ns = zi ns; k_nr = Z0 };
                                            m_replies = []; m_removes = false } Z0)
          | _ -> ());
         st := st';
         if opens then begin
           let n = fresh () in
-          let n = node_dispatch n { m_tid_ok = true; m_pkt = { k_body = Some (zi 1); k_sid = Z0; k_ns = zi ns; k_nr = Z0 };
+          let n = node_dispatch n { m_rc = head_choice; m_tid_ok = true; m_pkt = { k_body = Some (zi 1); k_sid = Z0; k_ns = zi ns; k_nr = Z0 };
                                     m_replies = [(zi 1, Z0)]; m_removes = false } Z0 in
           node := Some n; incr t; incr d
         end
@@ -259,7 +317,7 @@ let run_estab linger toks =
         match !st, !node with
         | CLive, Some n ->
           let nr0 = n.n_ep.e_ch.c_nr in
-          let n' = node_dispatch n { m_tid_ok = true; m_pkt = { k_body = Some (zi 1); k_sid = Z0; k_ns = zi ns; k_nr = n.n_ep.e_ch.c_ns };
+          let n' = node_dispatch n { m_rc = head_choice; m_tid_ok = true; m_pkt = { k_body = Some (zi 1); k_sid = Z0; k_ns = zi ns; k_nr = n.n_ep.e_ch.c_ns };
                                      m_replies = []; m_removes = (kind = "stop") } Z0 in
           node := Some n';
           if n'.n_ep.e_ch.c_nr <> nr0 then begin   (* accepted: the handler runs, once *)
@@ -300,15 +358,15 @@ let () =
       | [] -> ()
       | "estab" :: rest -> print_endline (run_estab linger rest)
       | "runner" :: rest -> print_endline (run_runner rest (if !idx < Array.length impls then impls.(!idx) else ""))
-      | "pair" :: rest -> print_endline (run_pair zlb_recv rest)
-      | "disp" :: rest -> print_endline (run_disp zlb_recv rest)
+      | "pair" :: rest -> print_endline (run_pair zlb_recv rest (if !idx < Array.length impls then impls.(!idx) else ""))
+      | "disp" :: rest -> print_endline (run_disp zlb_recv rest (if !idx < Array.length impls then impls.(!idx) else ""))
       | "full" :: rest -> print_endline (run_full rest)
       | ["sccrqdup"] ->
         (* the second copy of an SCCRQ is a duplicate for the control connection it opened: the receive step rejects
            it (ns <> nr), the protocol machine sees the SCCRQ once -> one tunnel.  (before e6d010e every copy opened a tunnel) *)
         let data ns nr = { k_body = Some (zi 1); k_sid = Z0; k_ns = zi ns; k_nr = zi nr } in
         let e0 = new_endpoint Z0 Z0 Z0 Z0 (zi 16) Z0 Z0 in
-        let handed e = match ep_deliver false e (data 0 0) Z0 None with (e', ODeliver (h, _, _)) -> (e', h) | (e', _) -> (e', false) in
+        let handed e = match ep_deliver false e (data 0 0) Z0 None head_choice with (e', ODeliver (h, _, _)) -> (e', h) | (e', _) -> (e', false) in
         let (e1, h1) = handed e0 in
         let (_, h2) = handed e1 in
         let count = (if h1 then 1 else 0) + (if h2 then 1 else 0) in
@@ -319,7 +377,7 @@ let () =
            acknowledgement is sent at teardown (FlushAck = a Tick at the ZLB deadline; before e462f04 the runner
            was stopped with the ZLB timer armed and nobody ticked again) *)
         let data ns nr = { k_body = Some (zi 1); k_sid = Z0; k_ns = zi ns; k_nr = zi nr } in
-        let msg ns nr rep rm = NMsg ({ m_tid_ok = true; m_pkt = data ns nr; m_replies = rep; m_removes = rm }, Z0) in
+        let msg ns nr rep rm = NMsg ({ m_rc = head_choice; m_tid_ok = true; m_pkt = data ns nr; m_replies = rep; m_removes = rm }, Z0) in
         let n0 = { n_known = true; n_ep = new_endpoint Z0 Z0 Z0 Z0 (zi 16) Z0 Z0 } in
         let n = node_run n0 [msg 0 0 [(zi 1, Z0)] false; msg 1 1 [] false; msg 2 1 [] true] in
         let nr = n.n_ep.e_ch.c_nr in
@@ -330,7 +388,7 @@ let () =
            after [gap] ms of silence a Hello (no reply of its own) arrives.  Is a packet carrying Nr = 3 sent
            within zlbDelay + 500 + 50 ms of the Hello? *)
         let data ns nr = { k_body = Some (zi 1); k_sid = Z0; k_ns = zi ns; k_nr = zi nr } in
-        let msg ns nr rep now = NMsg ({ m_tid_ok = true; m_pkt = data ns nr; m_replies = rep; m_removes = false }, zi now) in
+        let msg ns nr rep now = NMsg ({ m_rc = head_choice; m_tid_ok = true; m_pkt = data ns nr; m_replies = rep; m_removes = false }, zi now) in
         let e0 = apply_peer_window (new_endpoint Z0 Z0 Z0 Z0 (zi 16) Z0 Z0) (Some (zi 16)) in
         let n = ref (node_run { n_known = true; n_ep = e0 } [msg 0 0 [(zi 1, Z0)] 0; msg 1 1 [] 0]) in
         let th = ios gap in
@@ -341,7 +399,7 @@ let () =
           let (e', o) = ep_tick !n.n_ep (zi !t) [] in
           n := { !n with n_ep = e' };
           List.iteri (fun i q -> if i >= before && iz q.k_nr = 3 then acked_at := !t) e'.e_sent;
-          (match o with OTick (ret, _, _) -> t := iz (runner_next ret (zi !t)) | _ -> t := !t + 500)
+          (match o with OTick (ret, _, _) -> t := iz (runner_next (zi 500) ret (zi !t)) | _ -> t := !t + 500)
         done;
         Printf.printf "idle acked=%d\n" (if !acked_at >= 0 && !acked_at <= th + 200 + 500 + 50 then 1 else 0)
       | ["overlap"; op] ->
@@ -355,7 +413,7 @@ let () =
         let adv = if w = "-" then 4 else ios w in
         let setw e = fst (ep_setwin e (zi adv)) in
         let data ns nr = { k_body = Some (zi 1); k_sid = Z0; k_ns = zi ns; k_nr = zi nr } in
-        let del e ns nr = fst (ep_deliver false e (data ns nr) Z0 None) in
+        let del e ns nr = fst (ep_deliver false e (data ns nr) Z0 None head_choice) in
         let sub e = fst (ep_submit e (zi 1) Z0 Z0 None) in
         let e0 = new_endpoint Z0 Z0 Z0 Z0 (zi 16) Z0 Z0 in
         let e =
@@ -377,7 +435,7 @@ let () =
         (* the harness's SCCRQ advertises a Receive Window Size of 4 *)
         let e = fst (ep_setwin e (zi 4)) in
         let p = { k_body = Some (zi 1); k_sid = Z0; k_ns = zi (ios ns); k_nr = zi (ios nr) } in
-        let (e1, o1) = ep_deliver false e p Z0 None in
+        let (e1, o1) = ep_deliver false e p Z0 None head_choice in
         let (e2, o2) = ep_submit e1 (zi 1) Z0 Z0 None in
         let pk = (match o1 with ODeliver (_, l, _) -> l | _ -> []) @ (match o2 with OSubmit (l, _) -> l | _ -> []) in
         let c = e2.e_ch in
